@@ -371,7 +371,7 @@ func (r *Resolver) onSetOrList(g, tg *Scope, name string, t *parser.Type, v *par
 			if err != nil {
 				return "", err
 			}
-			ss = append(ss, str+",")
+			ss = append(ss, r.containerElem(eg, ct.ValueType, str)+",")
 		}
 		if len(ss) == 0 {
 			return goType + "{}", nil
@@ -412,7 +412,7 @@ func (r *Resolver) onMap(g, tg *Scope, name string, t *parser.Type, v *parser.Co
 			if err != nil {
 				return "", err
 			}
-			kvs = append(kvs, fmt.Sprintf("%s: %s,", key, val))
+			kvs = append(kvs, fmt.Sprintf("%s: %s,", key, r.containerElem(eg, ct.ValueType, val)))
 		}
 		if len(kvs) == 0 {
 			return goType + "{}", nil
@@ -517,6 +517,20 @@ func (r *Resolver) getStructLike(g *Scope, t *parser.Type) (f *Scope, s *parser.
 		return nil, nil, err
 	}
 	return
+}
+
+// containerElem adapts the rendered value of a struct-like element to the element
+// type of its container: getContainerTypeName makes the elements values instead of
+// pointers under value_type_in_container, while a struct literal or a reference to a
+// struct constant is rendered as a pointer.
+func (r *Resolver) containerElem(g *Scope, et *parser.Type, val string) string {
+	if !et.Category.IsStructLike() || !r.util.Features().ValueTypeForSIC || checkRefInterfaceType(r.util, g, et) {
+		return val
+	}
+	if strings.HasPrefix(val, "&") {
+		return val[1:]
+	}
+	return "*" + val
 }
 
 // derefType returns t with typedefs dereferenced and the scope the result belongs to.
